@@ -174,9 +174,11 @@ package core
 //@   ensures [C18] ret == nil ==> core.currentDirective.type_ == dtOf(keyword) && !has(core.bannedDirectives, core.currentDirective.type_)
 
 //@ func (*JApiCore).processKeyword
-//@   tag C01 C02 C06
+//@   tag C01 C02 C06 C08
 //@   requires CoreScanInv(core) && LexOK(lexeme) && lexeme.file == core.scanner.file
 //@   ensures ret == nil ==> CoreScanInv(core) && core.currentDirective != nil
+// C08: a JSIGHT directive in an included file (the include stack is not empty) is rejected
+//@   ensures [C08] old(len(core.scannersStack.stack)) > 0 && bstr(lexv(lexeme.file.content, lexeme.begin, lexeme.end)) == kwText(0) ==> ret != nil
 
 //@ func (*JApiCore).next
 //@   tag C01 C02 C06
